@@ -47,6 +47,17 @@ stands between admissible delimiters. -/
 theorem scrub_clean (l : Bytes) : ¬ ExposedRx (decode (scrubFixed l)) :=
   scrub_fixed_clean shape l
 
+/-- Text with nothing to match passes through the repaired `Scrub` byte for byte (log lines without addresses
+are not altered). -/
+theorem scrub_leaves_clean_text (l : Bytes) (h : hasMatch fullRx l = false) : scrubFixed l = l := by
+  show scrub true fullRx addrRx l = l
+  simp [scrub, scrubLoop, h]
+
+/-- **Scrubbing is idempotent**: a second `Scrub` (a scrubbed logger writing into another scrubbed logger, as
+happens when libraries wrap the process logger) changes nothing. -/
+theorem scrub_idempotent (l : Bytes) : scrubFixed (scrubFixed l) = scrubFixed l :=
+  scrub_leaves_clean_text _ (scrub_fixed_no_match shape l)
+
 /-- The loop of the repaired `Scrub` terminates by itself: each pass that finds a match strictly lowers
 `2·dots + 3·colons`, so the model's fuel is never what stops it. -/
 theorem scrub_pass_decreases (b : Bytes) (h : hasMatch fullRx b = true) :
